@@ -480,8 +480,10 @@ set_option maxRecDepth 100000 in
 theorem exCompileL : JitEmit.compileWithLayout exProgL (fun _ => none) false false = .ok (exCodeL, exLocsL, exExitL) :=
   eq_ok_of_ok? (by decide +kernel)
 
-theorem exExtOkL : ExtOk exCfgL exEnvL (fun _ => none) :=
-  ⟨fun _ _ _ h => by cases h, fun _ _ h => by cases h⟩
+theorem exExtOkL : ExtOk exCfgL exEnvL (fun _ => none) := by
+  constructor
+  · intro id addr f h; cases h
+  · intro id addr h; cases h
 
 theorem exEntryL : Entry exCfgL exMem exSt :=
   ⟨exEntry.rip, exEntry.rdi, exEntry.rsi, exEntry.rdx, exEntry.rsp, exEntry.mem, exEntry.sentinel, exEntry.room⟩
